@@ -11,7 +11,7 @@ CONSTANTS Fam, Sample, Seed, KMax, Emit
 VARIABLES phase, j, s, tris
 vars == <<phase, j, s, tris>>
 Scales == <<0, 0, 1, 100, 104, 0 - 2, 0 - 20, 0 - 126, 0 - 140, 0 - 149>>
-Sizes == <<0, 1, 2, 255, 256, 257, 1000>>
+Sizes == <<0, 1, 2, 255, 256, 257, 1000, 1023, 1024, 1025, 2048, 4096>>  \* also round multiples of plausible chunk sizes
 
 R(x) == (75 * (x % 65537) + 74) % 65537
 RECURSIVE Rn(_, _)
